@@ -618,672 +618,3 @@ Proof.
     constructor; simpl; [exact A | exact B | exact C | intros i Hi; apply Hall; lia | lia | exact F | exact G].
   - destruct (rdn (heads im) m) as [q| | |]; cbn [bind] in H; try discriminate. destruct q; discriminate.
 Qed.
-
-(* ================================================================ the C05 invariant *)
-Section Sim5.
-  Variable fl : c5flags.
-
-  (* data part, holding at every point of an execution *)
-  Definition G5 (s : st) (c : c5) : Prop :=
-    Good s /\ csteps5 fl c5_init (rev (s_tr s)) = Some c /\
-    ImmOrd (s_imm s) (d_imms c) (next_rid (s_cl s)) /\ d_intr c = s_intr s.
-
-  (* control fields an API call made by the client leaves alone *)
-  Definition ctl_same (c c' : c5) : Prop :=
-    d_mode c' = d_mode c /\ d_incb c' = d_incb c /\ d_stop c' = d_stop c /\ d_status c' = d_status c /\
-    d_drain c' = d_drain c /\ d_phase c' = d_phase c /\ d_ninv c' = d_ninv c /\
-    d_ready_seen c' = d_ready_seen c /\ (d_intr_run c = true -> d_intr_run c' = true).
-
-  Lemma ctl_same_refl c : ctl_same c c.
-  Proof. unfold ctl_same. tauto. Qed.
-  Lemma ctl_same_trans a b c : ctl_same a b -> ctl_same b c -> ctl_same a c.
-  Proof. unfold ctl_same. intros H1 H2. decompose [and] H1. decompose [and] H2. repeat split; try congruence. auto. Qed.
-
-  Lemma csteps5_app c t1 t2 :
-    csteps5 fl c (t1 ++ t2) = match csteps5 fl c t1 with Some c1 => csteps5 fl c1 t2 | None => None end.
-  Proof.
-    revert c. induction t1 as [|e t1 IH]; intros c; simpl; [reflexivity|].
-    destruct (cstep5 fl c e); [apply IH | reflexivity].
-  Qed.
-
-  Lemma csteps5_emit s s' e c c' :
-    csteps5 fl c5_init (rev (s_tr s)) = Some c -> s_tr s' = e :: s_tr s -> cstep5 fl c e = Some c' ->
-    csteps5 fl c5_init (rev (s_tr s')) = Some c'.
-  Proof. intros Hc Ht He. rewrite Ht. simpl. rewrite csteps5_app, Hc. simpl. rewrite He. reflexivity. Qed.
-
-  (* the C04 checker state behind Good, with the projection relation *)
-  Lemma G5_c4 s c : G5 s c -> exists x4, csteps4 c4_init (rev (s_tr s)) = Some x4 /\ Sim s x4 /\ R45 x4 c.
-  Proof.
-    intros [[x4 [H4 HS]] [H5 _]]. exists x4. split; [exact H4|]. split; [exact HS|].
-    eapply R45_of_trace; eauto.
-  Qed.
-
-  Lemma not_imm_id x4 c r k :
-    R45 x4 c -> NoDup (map g_rid (c_live x4)) -> live_rid x4 r k -> is_imm k = false ->
-    drop_imm r (d_imms c) = d_imms c.
-  Proof.
-    intros HR Hnd [g [Hg [Er Hk]]] Hnot. apply drop_imm_notin. intros x Hx E.
-    rewrite (r_imms _ _ HR) in Hx. apply in_imm_of in Hx. destruct Hx as [g' [Hg' [A B]]].
-    assert (g = g') by (apply (nodup_rid_eq (c_live x4)); auto; [apply in_rev; exact Hg' | congruence]).
-    subst g'. rewrite B in Hk. subst k. discriminate.
-  Qed.
-
-  (* events that leave the immediate list and the interrupt flag alone *)
-  Definition passive5 (c c' : c5) : Prop := d_imms c' = d_imms c /\ d_intr c' = d_intr c /\ ctl_same c c'.
-
-  Lemma G5_passive s s' e c c' :
-    G5 s c -> Good s' -> s_tr s' = e :: s_tr s -> cstep5 fl c e = Some c' ->
-    passive5 c c' -> s_imm s' = s_imm s -> s_intr s' = s_intr s -> next_rid (s_cl s) <= next_rid (s_cl s') ->
-    G5 s' c' /\ ctl_same c c'.
-  Proof.
-    intros [HG [Hc [HO Hi]]] HG' Ht He [Pi [Pn Pc]] Eimm Eintr Hnext. split; [|exact Pc].
-    split; [exact HG'|]. split; [eapply csteps5_emit; eauto|]. split.
-    - rewrite Pi, Eimm. eapply ImmOrd_bound; eauto.
-    - congruence.
-  Qed.
-End Sim5.
-
-Section Ops5.
-  Variable fl : c5flags.
-
-  Lemma upd5_ctl c i n t : ctl_same c (upd5 c i n t).
-  Proof. unfold ctl_same. simpl. tauto. Qed.
-
-  Lemma cstep5_clock c t :
-    cstep5 fl c (EClock t) =
-    Some {| d_imms := d_imms c; d_nets := d_nets c; d_tmrs := d_tmrs c; d_clock := Some t;
-            d_prev := match d_prev c with PvPoll0 => PvPoll0Clock | _ => PvClock end;
-            d_mode := d_mode c; d_phase := d_phase c; d_drain := d_drain c; d_incb := d_incb c;
-            d_intr := d_intr c; d_intr_run := d_intr_run c; d_stop := d_stop c;
-            d_status := d_status c; d_ninv := d_ninv c; d_ready_seen := d_ready_seen c |}.
-  Proof. reflexivity. Qed.
-
-  (* reading the clock *)
-  Lemma g5_read_clock s c now s1 :
-    G5 fl s c -> read_clock s = (now, s1) ->
-    exists c1, G5 fl s1 c1 /\ ctl_same c c1 /\ d_clock c1 = Some now /\ d_imms c1 = d_imms c /\
-               d_nets c1 = d_nets c /\ d_tmrs c1 = d_tmrs c /\
-               d_prev c1 = match d_prev c with PvPoll0 => PvPoll0Clock | _ => PvClock end /\
-               s_cl s1 = s_cl s /\ s_imm s1 = s_imm s /\ s_net s1 = s_net s /\ s_tmr s1 = s_tmr s /\
-               s_intr s1 = s_intr s /\ s_tr s1 = EClock now :: s_tr s.
-  Proof.
-    intros HG H. pose proof HG as [HGood [Hc [HO Hi]]].
-    destruct (read_clock_good s now s1 HGood H) as [_ [E1 [E2 [E3 [E4 [E5 _]]]]]].
-    assert (Htr : s_tr s1 = EClock now :: s_tr s).
-    { unfold read_clock in H. destruct (clocks (s_env s)); inversion H; reflexivity. }
-    set (c1 := {| d_imms := d_imms c; d_nets := d_nets c; d_tmrs := d_tmrs c; d_clock := Some now;
-            d_prev := match d_prev c with PvPoll0 => PvPoll0Clock | _ => PvClock end;
-            d_mode := d_mode c; d_phase := d_phase c; d_drain := d_drain c; d_incb := d_incb c;
-            d_intr := d_intr c; d_intr_run := d_intr_run c; d_stop := d_stop c;
-            d_status := d_status c; d_ninv := d_ninv c; d_ready_seen := d_ready_seen c |}).
-    assert (Hctl : ctl_same c c1) by (unfold ctl_same; simpl; tauto).
-    exists c1. split.
-    { apply (G5_passive fl s s1 (EClock now) c c1 HG).
-      - eapply read_clock_Good; eauto.
-      - exact Htr.
-      - apply cstep5_clock.
-      - unfold passive5. simpl. auto.
-      - exact E2.
-      - exact E5.
-      - rewrite E1. lia. }
-    split; [exact Hctl|]. simpl. repeat split; auto.
-  Qed.
-
-  Ltac solve_passive :=
-    unfold passive5, ctl_same; simpl; tauto.
-  Ltac passive_step HG HGood' :=
-    eexists; eapply (G5_passive fl);
-      [exact HG | exact HGood' | reflexivity | reflexivity | solve_passive | reflexivity | reflexivity | simpl; lia].
-
-  Lemma g5_exec_op o s s' c :
-    G5 fl s c -> op_norm o -> exec_op o s = Ok s' -> exists c', G5 fl s' c' /\ ctl_same c c'.
-  Proof.
-    intros HG Hn H. pose proof HG as [HGood [Hc [HO Hi]]].
-    pose proof (good_exec_op o s s' HGood Hn H) as HGood'.
-    destruct (G5_c4 fl s c HG) as [x4 [H4 [HS HR]]].
-    destruct o.
-    - (* OImmReg *)
-      unfold exec_op in H. destruct af as [|af]; cbn [Nat.eqb negb] in H.
-      + destruct (imm_register cb prio (next_rid (s_cl s)) (s_imm s)) as [im| | |] eqn:Ei; cbn [bind] in H; try discriminate.
-        inversion H; subst s'. clear H.
-        eexists. split; [|apply (upd5_ctl c)].
-        split; [exact HGood'|]. split; [eapply csteps5_emit; [exact Hc | reflexivity | reflexivity]|]. split.
-        * simpl. eapply ImmOrd_register; eauto.
-        * simpl. exact Hi.
-      + inversion H; subst s'. passive_step HG HGood'.
-    - (* OImmCancel *)
-      unfold exec_op in H.
-      destruct (get_var var (vars (s_cl s))) as [[r [prio|]]|] eqn:Ev;
-        try (inversion H; subst; exists c; split; [exact HG | apply ctl_same_refl]).
-      destruct (EventsModel.mem_nat r (cl_live (s_cl s))) eqn:Em;
-        [|inversion H; subst; exists c; split; [exact HG | apply ctl_same_refl]].
-      destruct (imm_cancel r prio (s_imm s)) as [im| | |] eqn:Ei; cbn [bind] in H; try discriminate.
-      inversion H; subst s'. clear H.
-      eexists. split; [|apply (upd5_ctl c)].
-      split; [exact HGood'|]. split; [eapply csteps5_emit; [exact Hc | reflexivity | reflexivity]|]. split.
-      * simpl. eapply ImmOrd_cancel; eauto. intros x Hx Ex.
-        rewrite (r_imms _ _ HR) in Hx. apply in_imm_of in Hx. destruct Hx as [g [Hg [A B]]].
-        apply in_rev in Hg. assert (K : g_kind g = KImm prio) by (eapply (sm_vars s x4 HS); eauto; congruence).
-        congruence.
-      * simpl. exact Hi.
-    - (* ONetReg *)
-      unfold exec_op in H. destruct af as [|af]; cbn [Nat.eqb negb] in H.
-      + destruct (net_register cb fd opn (next_rid (s_cl s)) (s_net s)) as [[e n]| | |] eqn:En; cbn [bind] in H; try discriminate.
-        destruct e as [err|].
-        * inversion H; subst s'. passive_step HG HGood'.
-        * destruct (op_dir opn) as [dir|]; [|discriminate]. inversion H; subst s'.
-          passive_step HG HGood'.
-      + inversion H; subst s'. passive_step HG HGood'.
-    - (* ONetCancel *)
-      unfold exec_op in H.
-      destruct (net_cancel fd opn (s_net s)) as [[x n]| | |] eqn:En; cbn [bind] in H; try discriminate.
-      destruct (net_cancel_spec fd opn (s_net s) x n (sm_net s x4 HS) En) as [_ [_ Hspec]].
-      destruct x as [rc | err].
-      + destruct Hspec as [dir [_ [_ [Hrc _]]]]. inversion H; subst s'.
-        pose proof (sm_net1 s x4 HS _ _ _ Hrc) as Hlr.
-        eexists. eapply (G5_passive fl); [exact HG | exact HGood' | reflexivity | reflexivity | | reflexivity | reflexivity | simpl; lia].
-        unfold passive5. simpl. split; [|split; [reflexivity | apply (upd5_ctl c)]].
-        eapply not_imm_id; eauto. apply (sm_nodup s x4 HS).
-      + inversion H; subst s'. passive_step HG HGood'.
-    - (* OTimerReg *)
-      unfold exec_op in H. destruct af as [|[|af]]; cbn [Nat.eqb negb] in H.
-      + destruct (timer_register cb t (next_rid (s_cl s)) s) as [s1| | |] eqn:Er; cbn [bind] in H; try discriminate.
-        inversion H; subst s'. clear H.
-        unfold timer_register in Er. destruct (read_clock s) as [now s0] eqn:Ec.
-        destruct (g5_read_clock s c now s0 HG Ec) as [c1 [HG1 [Hctl1 [Hclk [Hi1 [_ [_ [_ [E1 [E2 [E3 [E4 [E5 E6]]]]]]]]]]]]].
-        destruct (heap_add _ (heap (s_tmr s0))) as [h| | |]; cbn [bind] in Er; try discriminate.
-        inversion Er; subst s1. clear Er.
-        destruct HG1 as [_ [Hc1 [HO1 Hint1]]].
-        eexists. split; [|eapply ctl_same_trans; [exact Hctl1 | apply (upd5_ctl c1)]].
-        split; [exact HGood'|]. split.
-        * eapply csteps5_emit; [exact Hc1 | reflexivity | simpl; rewrite Hclk; reflexivity].
-        * split; [simpl; eapply ImmOrd_bound; [exact HO1 | simpl; lia] | simpl; exact Hint1].
-      + inversion H; subst s'. passive_step HG HGood'.
-      + destruct (read_clock s) as [now s0] eqn:Ec. inversion H; subst s'.
-        destruct (g5_read_clock s c now s0 HG Ec) as [c1 [HG1 [Hctl1 [Hclk [Hi1 [_ [_ [_ [E1 [E2 [E3 [E4 [E5 E6]]]]]]]]]]]]].
-        assert (X : exists c', G5 fl (emit (ERegFailTimer t ENOMEM) s0) c' /\ ctl_same c1 c').
-        { passive_step HG1 HGood'. }
-        destruct X as [c' [A B]]. exists c'. split; [exact A | eapply ctl_same_trans; eauto].
-    - (* OTimerCancel *)
-      unfold exec_op in H.
-      destruct (get_var var (vars (s_cl s))) as [[r [prio|]]|] eqn:Ev;
-        try (inversion H; subst; exists c; split; [exact HG | apply ctl_same_refl]).
-      destruct (EventsModel.mem_nat r (cl_live (s_cl s))) eqn:Em;
-        [|inversion H; subst; exists c; split; [exact HG | apply ctl_same_refl]].
-      destruct (timer_cancel r s) as [s1| | |] eqn:Et; cbn [bind] in H; try discriminate.
-      inversion H; subst s'. clear H.
-      unfold timer_cancel in Et. destruct (heap_index r (heap (s_tmr s))) as [i|] eqn:Ei; [|discriminate].
-      destruct (heap_delete i (heap (s_tmr s))) as [h| | |]; cbn [bind] in Et; try discriminate.
-      inversion Et; subst s1. clear Et.
-      destruct (heap_index_some _ _ _ Ei) as [x [Hx Hxr]].
-      destruct (sm_tmr s x4 HS x (nth_error_In _ _ Hx)) as [g [Hg [Er [Hk _]]]]. rewrite Hxr in Er.
-      eexists. eapply (G5_passive fl); [exact HG | exact HGood' | reflexivity | reflexivity | | reflexivity | reflexivity | simpl; lia].
-      unfold passive5. simpl. split; [|split; [reflexivity | apply (upd5_ctl c)]].
-      eapply (not_imm_id x4 c r (KTimer (t_orig x))); eauto; [apply (sm_nodup s x4 HS) | exists g; auto].
-    - (* OTimerReset *)
-      unfold exec_op in H.
-      destruct (get_var var (vars (s_cl s))) as [[r [prio|]]|] eqn:Ev;
-        try (inversion H; subst; exists c; split; [exact HG | apply ctl_same_refl]).
-      destruct (EventsModel.mem_nat r (cl_live (s_cl s))) eqn:Em;
-        [|inversion H; subst; exists c; split; [exact HG | apply ctl_same_refl]].
-      destruct (timer_reset r s) as [s1| | |] eqn:Et; cbn [bind] in H; try discriminate.
-      inversion H; subst s'. clear H.
-      unfold timer_reset in Et. destruct (heap_index r (heap (s_tmr s))) as [i|]; [|discriminate].
-      destruct (rdn (heap (s_tmr s)) i) as [x| | |]; cbn [bind] in Et; try discriminate.
-      destruct (read_clock s) as [now s0] eqn:Ec.
-      destruct (g5_read_clock s c now s0 HG Ec) as [c1 [HG1 [Hctl1 [Hclk [Hi1 [_ [_ [_ [E1 [E2 [E3 [E4 [E5 E6]]]]]]]]]]]]].
-      match type of Et with (let* h := ?e in _) = _ => destruct e as [h| | |] end; cbn [bind] in Et; try discriminate.
-      inversion Et; subst s1. clear Et.
-      destruct HG1 as [_ [Hc1 [HO1 Hint1]]].
-      eexists. split; [|eapply ctl_same_trans; [exact Hctl1 | apply (upd5_ctl c1)]].
-      split; [exact HGood'|]. split.
-      * eapply csteps5_emit; [exact Hc1 | reflexivity | simpl; rewrite Hclk; reflexivity].
-      * split; [simpl; exact HO1 | simpl; exact Hint1].
-    - (* OInterrupt *)
-      unfold exec_op in H. inversion H; subst s'.
-      eexists. split.
-      + split; [exact HGood'|]. split; [eapply csteps5_emit; [exact Hc | reflexivity | reflexivity]|].
-        split; [simpl; exact HO | reflexivity].
-      + unfold ctl_same. simpl. tauto.
-    - (* ODone *)
-      unfold exec_op in H. inversion H; subst s'.
-      passive_step HG HGood'.
-  Qed.
-
-  Lemma g5_exec_ops l : forall s s' c,
-    G5 fl s c -> Forall op_norm l -> exec_ops l s = Ok s' -> exists c', G5 fl s' c' /\ ctl_same c c'.
-  Proof.
-    induction l as [|o l IH]; intros s s' c HG Hn H; simpl in H.
-    - inversion H; subst. exists c. split; [exact HG | apply ctl_same_refl].
-    - destruct (exec_op o s) as [s1| | |] eqn:E; cbn [bind] in H; try discriminate.
-      inversion Hn; subst. destruct (g5_exec_op o s s1 c HG H2 E) as [c1 [HG1 Hc1]].
-      destruct (IH s1 s' c1 HG1 H3 H) as [c' [HG' Hc']]. exists c'. split; [exact HG' | eapply ctl_same_trans; eauto].
-  Qed.
-End Ops5.
-
-(* ================================================================ the dispatcher *)
-Section Dispatch5.
-  Variable fl : c5flags.
-  (* the clauses of the checker not covered yet (see Properties_C05_events.v) *)
-  Hypothesis Hno_tmin : f_tmin fl = false.
-  Hypothesis Hno_quiet : f_quiet fl = false.
-  Hypothesis Hno_timeout : f_timeout fl = false.
-  Hypothesis Hno_progress : f_progress fl = false.
-
-  Variable prog : program.
-  Hypothesis Hprog : prog_norm prog.
-
-  Lemma G5_step s s' e c c' :
-    G5 fl s c -> Good s' -> s_tr s' = e :: s_tr s -> cstep5 fl c e = Some c' ->
-    ImmOrd (s_imm s') (d_imms c') (next_rid (s_cl s')) -> d_intr c' = s_intr s' ->
-    G5 fl s' c'.
-  Proof.
-    intros [HG [Hc [HO Hi]]] HG' Ht He HO' Hi'. split; [exact HG'|].
-    split; [eapply csteps5_emit; eauto|]. split; assumption.
-  Qed.
-
-  (* control facts kept between two dispatcher steps *)
-  Definition run_same (c c' : c5) : Prop :=
-    d_mode c' = d_mode c /\ d_drain c' = d_drain c.
-
-  Definition fired (c : c5) (imms : list (nat * nat)) (nets : list nat) (tmrs : list (nat * (tv * N))) : c5 :=
-    {| d_imms := imms; d_nets := nets; d_tmrs := tmrs; d_clock := d_clock c; d_prev := PvNone;
-       d_mode := d_mode c; d_phase := d_phase c; d_drain := d_drain c; d_incb := true;
-       d_intr := d_intr c; d_intr_run := d_intr_run c; d_stop := false;
-       d_status := d_status c; d_ninv := S (d_ninv c); d_ready_seen := d_ready_seen c |}.
-
-  Lemma cstep5_invoke_imm c r x p :
-    d_incb c = false -> d_stop c = false -> d_mode c <> MOut ->
-    find_imm r (d_imms c) = Some x -> imm_best (d_imms c) = Some (r, p) ->
-    cstep5 fl c (EInvoke r) = Some (fired c (drop_imm r (d_imms c)) (d_nets c) (d_tmrs c)).
-  Proof.
-    intros Hincb Hstop Hmode Hfind Hbest. unfold cstep5, fired. rewrite Hincb, Hstop. cbn [orb].
-    rewrite Hfind, Hbest, Nat.eqb_refl. destruct (d_mode c) eqn:Em; [congruence | reflexivity | reflexivity].
-  Qed.
-
-  Lemma cstep5_invoke_net c r :
-    d_incb c = false -> d_stop c = false -> d_mode c <> MOut -> d_imms c = [] ->
-    EventsSpec.mem_nat r (d_nets c) = true ->
-    cstep5 fl c (EInvoke r) = Some (fired c (d_imms c) (drop_net r (d_nets c)) (d_tmrs c)).
-  Proof.
-    intros Hincb Hstop Hmode Hnil Hmem. unfold cstep5, fired. rewrite Hincb, Hstop. cbn [orb].
-    rewrite Hnil. cbn [find_imm find]. rewrite Hmem. cbn [EventsSpec.is_nil].
-    destruct (d_mode c) eqn:Em; [congruence | reflexivity | reflexivity].
-  Qed.
-
-  Lemma cstep5_invoke_tmr c r t0 due0 md :
-    d_incb c = false -> d_stop c = false -> d_mode c <> MOut -> d_imms c = [] ->
-    EventsSpec.mem_nat r (d_nets c) = false ->
-    find_tmr r (d_tmrs c) = Some (r, (t0, due0)) -> min_due (d_tmrs c) = Some md ->
-    cstep5 fl c (EInvoke r) = Some (fired c (d_imms c) (d_nets c) (drop_tmr r (d_tmrs c))).
-  Proof.
-    intros Hincb Hstop Hmode Hnil Hmem Hft Hmd. unfold cstep5, fired. rewrite Hincb, Hstop. cbn [orb].
-    rewrite Hnil. cbn [find_imm find]. rewrite Hmem, Hft, Hmd. cbn [EventsSpec.is_nil andb].
-    rewrite Hno_tmin, Hno_quiet. cbn [negb orb andb].
-    destruct (d_mode c) eqn:Em; [congruence | reflexivity | reflexivity].
-  Qed.
-
-  (* ---- the three ways a callback is entered *)
-  Definition Entered (c : c5) (s1 : st) (c1 : c5) : Prop :=
-    G5 fl s1 c1 /\ d_incb c1 = true /\ run_same c c1.
-
-  Lemma enter_imm s c r s1 :
-    G5 fl s c -> d_incb c = false -> d_stop c = false -> d_mode c <> MOut ->
-    imm_get_s s = Ok (Some r, s1) ->
-    exists c1, Entered c (emit (EInvoke (r_rid r)) (fire_cl r s1)) c1.
-  Proof.
-    intros HG Hincb Hstop Hmode H. pose proof HG as [HGood [Hc [HO Hi]]].
-    pose proof (good_imm_get_some s r s1 HGood H) as HGood'.
-    unfold imm_get_s in H. destruct (imm_get (s_imm s)) as [[ro im]| | |] eqn:E; cbn [bind] in H; try discriminate.
-    inversion H; subst ro s1. clear H.
-    destruct (ImmOrd_get_some _ _ _ _ _ HO E) as [m [Hbest HO']].
-    assert (Hfind : exists x, find_imm (r_rid r) (d_imms c) = Some x).
-    { apply imm_best_in in Hbest. unfold find_imm.
-      destruct (find (fun x : nat * nat => Nat.eqb (fst x) (r_rid r)) (d_imms c)) eqn:Ef; [eauto|].
-      exfalso. pose proof (find_none _ _ Ef _ Hbest) as X. simpl in X. rewrite Nat.eqb_refl in X. discriminate. }
-    destruct Hfind as [x Hfind].
-    exists (fired c (drop_imm (r_rid r) (d_imms c)) (d_nets c) (d_tmrs c)). split; [|split].
-    - eapply (G5_step s _ (EInvoke (r_rid r)) c); [exact HG | exact HGood' | reflexivity | | |].
-      + eapply cstep5_invoke_imm; eauto.
-      + simpl. exact HO'.
-      + simpl. exact Hi.
-    - reflexivity.
-    - split; reflexivity.
-  Qed.
-
-  Lemma enter_net s c r s1 :
-    G5 fl s c -> d_incb c = false -> d_stop c = false -> d_mode c <> MOut -> d_imms c = [] ->
-    net_get_s s = Ok (Some r, s1) ->
-    exists c1, Entered c (emit (EInvoke (r_rid r)) (fire_cl r s1)) c1.
-  Proof.
-    intros HG Hincb Hstop Hmode Hnil H. pose proof HG as [HGood [Hc [HO Hi]]].
-    pose proof (good_net_get_some s r s1 HGood H) as HGood'.
-    destruct (G5_c4 fl s c HG) as [x4 [H4 [HS HR]]].
-    unfold net_get_s in H. destruct (net_get (s_net s)) as [[ro n]| | |] eqn:E; cbn [bind] in H; try discriminate.
-    inversion H; subst ro s1. clear H.
-    destruct (net_get_spec (s_net s) (Some r) n (sm_net s x4 HS) E) as [_ [_ [s0 [dir [Hrc _]]]]].
-    destruct (sm_net1 s x4 HS _ _ _ Hrc) as [g [Hg [Er Hk]]].
-    assert (Hmem : EventsSpec.mem_nat (r_rid r) (d_nets c) = true).
-    { apply mem_nat_true. rewrite (r_nets _ _ HR). apply in_net_of. exists g, s0, dir.
-      split; [apply in_rev; rewrite rev_involutive; exact Hg | auto]. }
-    exists (fired c (d_imms c) (drop_net (r_rid r) (d_nets c)) (d_tmrs c)). split; [|split].
-    - eapply (G5_step s _ (EInvoke (r_rid r)) c); [exact HG | exact HGood' | reflexivity | | |].
-      + eapply cstep5_invoke_net; eauto.
-      + simpl. exact HO.
-      + simpl. exact Hi.
-    - reflexivity.
-    - split; reflexivity.
-  Qed.
-
-  Lemma min_due_some l : l <> [] -> exists m, min_due l = Some m.
-  Proof.
-    destruct l as [|[r [t d]] rest]; [congruence|]. intros _. simpl.
-    destruct (min_due rest); eauto.
-  Qed.
-
-  Lemma enter_timer s c r s1 :
-    G5 fl s c -> d_incb c = false -> d_stop c = false -> d_mode c <> MOut -> d_imms c = [] ->
-    timer_get s = Ok (Some r, s1) ->
-    exists c1, Entered c (emit (EInvoke (r_rid r)) (fire_cl r s1)) c1.
-  Proof.
-    intros HG Hincb Hstop Hmode Hnil H.
-    pose proof (good_timer_get_some s r s1 (proj1 HG) H) as HGood'.
-    unfold timer_get in H. destruct (tq_inited (s_tmr s)); [|discriminate].
-    destruct (read_clock s) as [now s0] eqn:Ec.
-    destruct (g5_read_clock fl s c now s0 HG Ec) as [c0 [HG0 [Hctl0 [Hclk [Hi0 [Hn0 [Ht0 [_ [E1 [E2 [E3 [E4 [E5 E6]]]]]]]]]]]]].
-    destruct (G5_c4 fl s0 c0 HG0) as [x4 [H4 [HS HR]]].
-    destruct (heap (s_tmr s0)) as [|m rest] eqn:Eheap; [discriminate|].
-    assert (Hm : In m (heap (s_tmr s0))) by (rewrite Eheap; left; reflexivity).
-    destruct (sm_tmr s0 x4 HS m Hm) as [g [Hg [Er [Hk [Hdue _]]]]].
-    assert (Hres : r = t_rec m /\ s_imm s1 = s_imm s0 /\ s_intr s1 = s_intr s0 /\ s_cl s1 = s_cl s0 /\ s_tr s1 = s_tr s0).
-    { destruct (tv_cmp (t_deadline m) now); try discriminate;
-        (destruct (heap_delete 0 (m :: rest)) as [h| | |]; cbn [bind] in H; try discriminate;
-         inversion H; subst; simpl; auto). }
-    destruct Hres as [-> [F1 [F2 [F3 F4]]]].
-    destruct Hctl0 as [C1 [C2 [C3 [C4 [C5 _]]]]].
-    (* classification of the id *)
-    assert (Hnotnet : EventsSpec.mem_nat (r_rid (t_rec m)) (d_nets c0) = false).
-    { destruct (EventsSpec.mem_nat (r_rid (t_rec m)) (d_nets c0)) eqn:X; [|reflexivity]. exfalso.
-      apply mem_nat_true in X. rewrite (r_nets _ _ HR) in X. apply in_net_of in X.
-      destruct X as [g' [fd [dir [Hg' [A B]]]]]. apply in_rev in Hg'.
-      assert (g = g') by (apply (nodup_rid_eq (c_live x4)); auto; [apply (sm_nodup s0 x4 HS) | congruence]).
-      subst g'. congruence. }
-    assert (Hintm : In (r_rid (t_rec m), (t_orig m, g_due g)) (d_tmrs c0)).
-    { rewrite (r_tmrs _ _ HR). apply in_tmr_of. exists g. simpl.
-      split; [apply in_rev; rewrite rev_involutive; exact Hg | auto]. }
-    assert (Hft : exists t0 due0, find_tmr (r_rid (t_rec m)) (d_tmrs c0) = Some (r_rid (t_rec m), (t0, due0))).
-    { unfold find_tmr. destruct (find (fun x : nat * (tv * N) => Nat.eqb (fst x) (r_rid (t_rec m))) (d_tmrs c0)) as [[r0 [t0 d0]]|] eqn:Ef.
-      - apply find_some in Ef. destruct Ef as [_ Ef]. simpl in Ef. apply Nat.eqb_eq in Ef. subst r0. eauto.
-      - exfalso. pose proof (find_none _ _ Ef _ Hintm) as X. simpl in X. rewrite Nat.eqb_refl in X. discriminate. }
-    destruct Hft as [t0 [due0 Hft]].
-    destruct (min_due_some (d_tmrs c0)) as [md Hmd]; [intros X; rewrite X in Hintm; destruct Hintm|].
-    exists (fired c0 (d_imms c0) (d_nets c0) (drop_tmr (r_rid (t_rec m)) (d_tmrs c0))). split; [|split].
-    - eapply (G5_step s0 _ (EInvoke (r_rid (t_rec m))) c0); [exact HG0 | exact HGood' | simpl; rewrite F4; reflexivity | | |].
-      + eapply cstep5_invoke_tmr; eauto; congruence.
-      + simpl. rewrite F1, F3. apply HG0.
-      + simpl. rewrite F2. apply HG0.
-    - reflexivity.
-    - split; simpl; congruence.
-  Qed.
-
-  (* ---- a callback runs and returns *)
-  Lemma run_callback c r s s1 c1 rc s' :
-    s1 = emit (EInvoke (r_rid r)) (fire_cl r s) -> Entered c s1 c1 ->
-    doevent prog r s = Ok (rc, s') ->
-    exists c', G5 fl s' c' /\ d_incb c' = false /\ run_same c c' /\ d_status c' = rc /\
-               d_stop c' = negb (rc =? 0)%Z || s_intr s'.
-  Proof.
-    intros -> [HG1 [Hincb1 [Hm1 Hd1]]] H. unfold doevent in H.
-    match type of H with (let* s2 := exec_ops ?l ?st in _) = _ =>
-      destruct (exec_ops l st) as [s2| | |] eqn:E end; cbn [bind] in H; try discriminate.
-    inversion H; subst rc s'. clear H.
-    destruct (g5_exec_ops fl _ _ _ c1 HG1 (get_script_norm prog (r_cb r) _ Hprog) E) as [c2 [HG2 Hctl]].
-    destruct Hctl as [C1 [C2 [C3 [C4 [C5 _]]]]].
-    pose proof HG2 as [HGood2 [Hc2 [HO2 Hi2]]].
-    eexists. split; [|split; [|split; [|split]]].
-    - eapply (G5_step s2 _ (ECbEnd _) c2); [exact HG2 | apply Good_neutral; [exact HGood2 | exact I] | reflexivity | | |].
-      + unfold cstep5. rewrite C2, Hincb1. reflexivity.
-      + simpl. exact HO2.
-      + simpl. exact Hi2.
-    - reflexivity.
-    - split; simpl; congruence.
-    - reflexivity.
-    - simpl. rewrite Hi2. reflexivity.
-  Qed.
-
-  (* ---- polling *)
-  Definition polled (c c' : c5) : Prop :=
-    d_incb c' = false /\ run_same c c' /\ d_stop c' = d_stop c /\ d_status c' = d_status c /\
-    d_imms c' = d_imms c.
-
-  Lemma polled_trans a b c : polled a b -> polled b c -> polled a c.
-  Proof.
-    unfold polled, run_same. intros [A1 [[A2 A3] [A4 [A5 A6]]]] [B1 [[B2 B3] [B4 [B5 B6]]]].
-    repeat split; congruence.
-  Qed.
-
-  Definition can_poll (c : c5) : Prop :=
-    d_incb c = false /\ (d_mode c = MSpin \/ (d_mode c = MRun /\ d_drain c = false)).
-
-  Lemma cstep5_poll c timeout fs ans :
-    can_poll c ->
-    exists c', cstep5 fl c (EPoll timeout fs ans) = Some c' /\ polled c c' /\
-               d_intr c' = match ans with PEintr true => true | _ => d_intr c end.
-  Proof.
-    intros [Hincb Hmode]. unfold cstep5. rewrite Hincb.
-    destruct Hmode as [Hm | [Hm Hd]]; rewrite Hm.
-    - eexists. split; [reflexivity|]. unfold polled, run_same. simpl. repeat split; auto.
-    - rewrite Hd, Hno_timeout. cbn [negb orb]. eexists. split; [reflexivity|].
-      unfold polled, run_same. simpl. repeat split; auto.
-  Qed.
-
-  Lemma can_poll_polled c c' : can_poll c -> polled c c' -> can_poll c'.
-  Proof.
-    unfold can_poll, polled, run_same. intros [A B] [C [[D E] _]]. split; [exact C|]. rewrite D, E. exact B.
-  Qed.
-
-  Lemma g5_poll_one s c timeout fs ans X :
-    G5 fl s c -> can_poll c -> Good (emit (EPoll timeout fs ans) X) ->
-    s_tr X = s_tr s -> s_imm X = s_imm s -> s_cl X = s_cl s ->
-    s_intr X = (match ans with PEintr true => true | _ => s_intr s end) ->
-    exists c', G5 fl (emit (EPoll timeout fs ans) X) c' /\ polled c c'.
-  Proof.
-    intros HG Hcp HGood' Etr Eimm Ecl Eintr.
-    destruct (cstep5_poll c timeout fs ans Hcp) as [c' [Hstep [Hp Hi']]].
-    exists c'. split; [|exact Hp].
-    eapply (G5_step s _ _ c c' HG HGood'); [simpl; rewrite Etr; reflexivity | exact Hstep | |].
-    - simpl. rewrite Eimm, Ecl. destruct Hp as [_ [_ [_ [_ Hi]]]]. rewrite Hi. apply HG.
-    - simpl. rewrite Hi', Eintr. destruct HG as [_ [_ [_ Hi]]]. rewrite Hi. reflexivity.
-  Qed.
-
-  Lemma g5_poll_loop timeout pl : forall s c,
-    G5 fl s c -> can_poll c -> exists c', G5 fl (poll_loop timeout pl s) c' /\ polled c c'.
-  Proof.
-    induction pl as [|a rest IH]; intros s c HG Hcp; cbn [poll_loop].
-    - apply (g5_poll_one s c); auto.
-      eapply Good_congr; [apply (good_poll_eintr s timeout true []); apply HG | | | | | | | |]; reflexivity.
-    - destruct a as [raw | [|]].
-      + apply (g5_poll_one s c); auto. apply good_poll_ready. apply HG.
-      + apply (g5_poll_one s c); auto.
-        eapply Good_congr; [apply (good_poll_eintr s timeout true rest); apply HG | | | | | | | |]; reflexivity.
-      + destruct (g5_poll_one s c timeout (fdset_of (fds (s_net s))) (PEintr false)
-                   (set_polls (net_set_fds s (map (pf_set_rev rb_none) (fds (s_net s)))) rest) HG Hcp)
-          as [c1 [HG1 Hp1]]; try reflexivity.
-        { apply good_poll_eintr. apply HG. }
-        destruct (s_intr s); [exists c1; auto|].
-        destruct (IH _ c1 HG1 (can_poll_polled _ _ Hcp Hp1)) as [c2 [HG2 Hp2]].
-        exists c2. split; [exact HG2 | eapply polled_trans; eauto].
-  Qed.
-
-  Lemma g5_net_select tvo s c :
-    G5 fl s c -> can_poll c -> exists c', G5 fl (net_select tvo s) c' /\ polled c c'.
-  Proof.
-    intros HG Hcp. unfold net_select.
-    pose proof HG as [HGood [Hc [HO Hi]]].
-    set (s0 := set_net s (net_init (s_net s))).
-    assert (HG0 : G5 fl s0 c).
-    { split; [|split; [exact Hc | split; [exact HO | exact Hi]]].
-      destruct HGood as [x4 [H4 HS]]. pose proof (sm_net s x4 HS) as HI.
-      apply good_set_net_views; [exists x4; auto | apply net_init_inv; exact HI | |].
-      - intros f d. apply net_init_field. exact HI.
-      - intros f. unfold rev_at. rewrite net_init_slot by exact HI. reflexivity. }
-    destruct (g5_poll_loop (sel_timeout tvo) (polls (s_env s0)) s0 c HG0 Hcp) as [c1 [HG1 Hp1]].
-    exists c1. split; [|exact Hp1].
-    destruct HG1 as [HGood1 [Hc1 [HO1 Hi1]]].
-    split; [|split; [exact Hc1 | split; [exact HO1 | exact Hi1]]].
-    destruct HGood1 as [x4 [H4 HS]]. apply good_set_net_views; [exists x4; auto | | |].
-    - pose proof (sm_net _ x4 HS) as HI. destruct HI. constructor; simpl; auto.
-    - intros f d. reflexivity.
-    - intros f. reflexivity.
-  Qed.
-
-  (* ---- the loops *)
-  (* at a point where the dispatcher decides what to do next *)
-  Definition LoopHead (s : st) (c : c5) : Prop :=
-    G5 fl s c /\ d_incb c = false /\ d_mode c <> MOut /\ (d_stop c = true -> s_intr s = true) /\
-    d_status c = 0%Z.
-
-  (* what a loop hands back *)
-  Definition Returned (c : c5) (rc : Z) (s' : st) : Prop :=
-    exists c', G5 fl s' c' /\ d_incb c' = false /\ d_mode c' = d_mode c /\ d_status c' = rc /\
-               (d_stop c' = true -> (rc =? 0)%Z = false \/ s_intr s' = true).
-
-  Lemma after_callback c c' rc s' :
-    G5 fl s' c' -> d_incb c' = false -> run_same c c' -> d_status c' = rc ->
-    d_stop c' = negb (rc =? 0)%Z || s_intr s' -> d_mode c <> MOut ->
-    (rc =? 0)%Z = true -> LoopHead s' c'.
-  Proof.
-    intros HG Hincb [Hm Hd] Hst Hstop Hmode Hrc. unfold LoopHead.
-    split; [exact HG|]. split; [exact Hincb|]. split; [congruence|]. split.
-    - rewrite Hstop, Hrc. simpl. auto.
-    - apply Z.eqb_eq in Hrc. congruence.
-  Qed.
-
-  Lemma good5_drain fuel : forall r s c c1 rc s',
-    d_mode c <> MOut -> Entered c (emit (EInvoke (r_rid r)) (fire_cl r s)) c1 ->
-    drain_loop prog fuel r s = Ok (rc, s') -> Returned c rc s'.
-  Proof.
-    induction fuel as [|fuel IH]; intros r s c c1 rc s' Hmode HE H; cbn [drain_loop] in H; [discriminate|].
-    destruct (doevent prog r s) as [[rc1 s1]| | |] eqn:Ed; cbn [bind] in H; try discriminate.
-    destruct (run_callback c r s _ c1 rc1 s1 eq_refl HE Ed) as [c2 [HG2 [Hincb2 [Hrs2 [Hst2 Hstop2]]]]].
-    destruct (negb (rc1 =? 0)%Z) eqn:Erc.
-    { inversion H; subst. exists c2. destruct Hrs2. auto. }
-    destruct (s_intr s1) eqn:Eintr.
-    { inversion H; subst. exists c2. destruct Hrs2. auto. }
-    apply negb_false_iff in Erc.
-    destruct (imm_get_s s1) as [[ro s2]| | |] eqn:Ei; cbn [bind] in H; try discriminate.
-    assert (Hstopf : d_stop c2 = false) by (rewrite Hstop2; try rewrite Erc; try rewrite Eintr; reflexivity).
-    assert (Hmode2 : d_mode c2 <> MOut) by (destruct Hrs2 as [X _]; congruence).
-    destruct ro as [r'|].
-    - destruct (enter_imm s1 c2 r' s2 HG2 Hincb2 Hstopf Hmode2 Ei) as [c3 HE3].
-      destruct (IH r' s2 c2 c3 rc s' Hmode2 HE3 H) as [c' [A [B [C D]]]].
-      exists c'. destruct Hrs2 as [X _]. split; [exact A|]. split; [exact B|]. split; [congruence | exact D].
-    - inversion H; subst rc s'.
-      pose proof HG2 as [HGood2 [Hc2 [HO2 Hi2]]].
-      exists c2. split; [|destruct Hrs2; auto].
-      unfold imm_get_s in Ei. destruct (imm_get (s_imm s1)) as [[ro im]| | |] eqn:E; cbn [bind] in Ei; try discriminate.
-      inversion Ei; subst ro s2. destruct (ImmOrd_get_none _ _ _ _ HO2 E) as [_ HO'].
-      split; [eapply good_imm_get_none; [exact HGood2 | unfold imm_get_s; rewrite E; reflexivity]|].
-      split; [exact Hc2 | split; [exact HO' | exact Hi2]].
-  Qed.
-
-  (* imm_get found nothing: no immediate is pending *)
-  Lemma imm_none s c s1 :
-    G5 fl s c -> imm_get_s s = Ok (None, s1) -> G5 fl s1 c /\ d_imms c = [] /\ s_intr s1 = s_intr s.
-  Proof.
-    intros HG Ei. pose proof HG as [HGood [Hc [HO Hi]]].
-    unfold imm_get_s in Ei. destruct (imm_get (s_imm s)) as [[ro im]| | |] eqn:E; cbn [bind] in Ei; try discriminate.
-    inversion Ei; subst ro s1. destruct (ImmOrd_get_none _ _ _ _ HO E) as [Hnil HO'].
-    split; [|split; [exact Hnil | reflexivity]].
-    split; [eapply good_imm_get_none; [exact HGood | unfold imm_get_s; rewrite E; reflexivity]|].
-    split; [exact Hc | split; [exact HO' | exact Hi]].
-  Qed.
-
-  Lemma net_none s c s1 :
-    G5 fl s c -> net_get_s s = Ok (None, s1) -> G5 fl s1 c /\ s_intr s1 = s_intr s.
-  Proof.
-    intros HG E. pose proof HG as [HGood [Hc [HO Hi]]].
-    pose proof (good_net_get_none s s1 HGood E) as HGood1.
-    unfold net_get_s in E. destruct (net_get (s_net s)) as [[ro n]| | |]; cbn [bind] in E; try discriminate.
-    inversion E; subst ro s1. split; [|reflexivity].
-    split; [exact HGood1 | split; [exact Hc | split; [exact HO | exact Hi]]].
-  Qed.
-
-  Lemma timer_none s c s1 :
-    G5 fl s c -> timer_get s = Ok (None, s1) -> exists c1, G5 fl s1 c1 /\ ctl_same c c1.
-  Proof.
-    intros HG H. unfold timer_get in H.
-    destruct (tq_inited (s_tmr s)); [|inversion H; subst; exists c; split; [exact HG | apply ctl_same_refl]].
-    destruct (read_clock s) as [now s0] eqn:Ec.
-    destruct (g5_read_clock fl s c now s0 HG Ec) as [c0 [HG0 [Hctl0 _]]].
-    assert (s1 = s0).
-    { destruct (heap (s_tmr s0)) as [|m rest]; [inversion H; reflexivity|].
-      destruct (tv_cmp (t_deadline m) now); try (inversion H; reflexivity);
-        destruct (heap_delete 0 (m :: rest)) as [h| | |]; cbn [bind] in H; discriminate. }
-    subst s1. exists c0. auto.
-  Qed.
-
-  Lemma good5_main fuel : forall s c rc s',
-    LoopHead s c -> can_poll c -> main_loop prog fuel s = Ok (rc, s') -> Returned c rc s'.
-  Proof.
-    induction fuel as [|fuel IH]; intros s c rc s' HL Hcp H; cbn [main_loop] in H; [discriminate|].
-    destruct HL as [HG [Hincb [Hmode [Hstop Hstat]]]].
-    destruct (s_intr s) eqn:Eintr.
-    { inversion H; subst. exists c. auto. }
-    assert (Hstopf : d_stop c = false).
-    { destruct (d_stop c) eqn:X; [|reflexivity]. specialize (Hstop eq_refl). congruence. }
-    (* generic continuation after a callback *)
-    assert (Hcont : forall r sx c1 rcx sy,
-              Entered c (emit (EInvoke (r_rid r)) (fire_cl r sx)) c1 -> doevent prog r sx = Ok (rcx, sy) ->
-              (if negb (rcx =? 0)%Z then Ok (rcx, sy) else main_loop prog fuel sy) = Ok (rc, s') ->
-              Returned c rc s').
-    { intros r sx c1 rcx sy HE Ed Hk.
-      destruct (run_callback c r sx _ c1 rcx sy eq_refl HE Ed) as [c2 [HG2 [Hincb2 [Hrs2 [Hst2 Hstop2]]]]].
-      destruct (negb (rcx =? 0)%Z) eqn:Erc.
-      - inversion Hk; subst. exists c2. destruct Hrs2. auto.
-      - apply negb_false_iff in Erc.
-        assert (Hstop2' : d_stop c2 = negb (rcx =? 0)%Z || s_intr sy) by (rewrite Erc; exact Hstop2).
-        pose proof (after_callback c c2 rcx sy HG2 Hincb2 Hrs2 Hst2 Hstop2' Hmode Erc) as HL2.
-        assert (Hcp2 : can_poll c2).
-        { destruct Hrs2 as [X Y]. destruct Hcp as [_ Z]. split; [exact Hincb2|]. rewrite X, Y. exact Z. }
-        destruct (IH sy c2 rc s' HL2 Hcp2 Hk) as [c' [A [B [C D]]]].
-        exists c'. destruct Hrs2 as [X _]. split; [exact A|]. split; [exact B|]. split; [congruence | exact D]. }
-    destruct (imm_get_s s) as [[ro s1]| | |] eqn:E1; cbn [bind] in H; try discriminate.
-    destruct ro as [r|].
-    { destruct (doevent prog r s1) as [[rc1 s2]| | |] eqn:Ed; cbn [bind] in H; try discriminate.
-      destruct (enter_imm s c r s1 HG Hincb Hstopf Hmode E1) as [c1 HE]. eapply Hcont; eauto. }
-    destruct (imm_none s c s1 HG E1) as [HG1 [Hnil Ei1]].
-    destruct (net_get_s s1) as [[ro s2]| | |] eqn:E2; cbn [bind] in H; try discriminate.
-    destruct ro as [r|].
-    { destruct (doevent prog r s2) as [[rc1 s3]| | |] eqn:Ed; cbn [bind] in H; try discriminate.
-      destruct (enter_net s1 c r s2 HG1 Hincb Hstopf Hmode Hnil E2) as [c1 HE]. eapply Hcont; eauto. }
-    destruct (net_none s1 c s2 HG1 E2) as [HG2 Ei2].
-    destruct (g5_net_select (Some (0, 0)%N) s2 c HG2 Hcp) as [c3 [HG3 Hp3]].
-    set (s3 := net_select (Some (0, 0)%N) s2) in *.
-    destruct Hp3 as [Hincb3 [[Hm3 Hd3] [Hstop3 [Hstat3 Himms3]]]].
-    assert (Hmode3 : d_mode c3 <> MOut) by congruence.
-    assert (Hstopf3 : d_stop c3 = false) by congruence.
-    assert (Hnil3 : d_imms c3 = []) by congruence.
-    (* what follows is relative to c3; translate back to c *)
-    assert (Hback : forall rcx sx, Returned c3 rcx sx -> Returned c rcx sx).
-    { intros rcx sx [c' [A [B [C D]]]]. exists c'. split; [exact A|]. split; [exact B|]. split; [congruence | exact D]. }
-    assert (Hcont3 : forall r sx c1 rcx sy,
-              Entered c3 (emit (EInvoke (r_rid r)) (fire_cl r sx)) c1 -> doevent prog r sx = Ok (rcx, sy) ->
-              (if negb (rcx =? 0)%Z then Ok (rcx, sy) else main_loop prog fuel sy) = Ok (rc, s') ->
-              Returned c rc s').
-    { intros r sx c1 rcx sy [HGe [Hie [Hme Hde]]] Ed Hk. eapply Hcont; eauto.
-      split; [exact HGe|]. split; [exact Hie|]. split; congruence. }
-    destruct (net_get_s s3) as [[ro s4]| | |] eqn:E4; cbn [bind] in H; try discriminate.
-    destruct ro as [r|].
-    { destruct (doevent prog r s4) as [[rc1 s5]| | |] eqn:Ed; cbn [bind] in H; try discriminate.
-      destruct (enter_net s3 c3 r s4 HG3 Hincb3 Hstopf3 Hmode3 Hnil3 E4) as [c1 HE]. eapply Hcont3; eauto. }
-    destruct (net_none s3 c3 s4 HG3 E4) as [HG4 Ei4].
-    destruct (timer_get s4) as [[ro s5]| | |] eqn:E5; cbn [bind] in H; try discriminate.
-    destruct ro as [r|].
-    { destruct (doevent prog r s5) as [[rc1 s6]| | |] eqn:Ed; cbn [bind] in H; try discriminate.
-      destruct (enter_timer s4 c3 r s5 HG4 Hincb3 Hstopf3 Hmode3 Hnil3 E5) as [c1 HE]. eapply Hcont3; eauto. }
-    inversion H; subst rc s'.
-    destruct (timer_none s4 c3 s5 HG4 E5) as [c5' [HG5 Hctl5]].
-    destruct Hctl5 as [C1 [C2 [C3 [C4 _]]]].
-    exists c5'. split; [exact HG5|]. split; [congruence|]. split; congruence.
-  Qed.
